@@ -10,8 +10,8 @@ from hypothesis import strategies as st
 
 from . import cmakegen, core, refs
 
-DIRNAMES = ["a", "b", "a.b", "x-y", "mod", "mod.v2", "build", "sub", "t1", "deep", "cm.cmake", "n"]
-STEMS = ["m", "n1", "n2", "n3", "a", "b", "a.b", "x-y", "x", "mod", "util", "zed", "lib.core", "cm", "N1", "tc.cmake.in", "dup.cmake"]
+DIRNAMES = ["a", "b", "a.b", "x-y", "mod", "mod.v2", "build", "sub", "t1", "deep", "cm.cmake", "n", "CMakeFiles", ".ci"]
+STEMS = ["m", "n1", "n2", "n3", "a", "b", "a.b", "x-y", "x", "mod", "util", "zed", "lib.core", "cm", "N1", "tc.cmake.in", "dup.cmake", "n01"]
 EXTS = [".cmake", ".cmake", ".cmake", ".cmake", ".cmake", ".CMAKE", ".CMake", ".txt", ".cmake.in", ""]
 PROJ_NAMES = ["proj", "src", "my-proj", "p.q", "cmake"]
 LOC_NAMES = ["w1", "site", "work", "ci", "checkout", "deep", "build", "mod"]
@@ -70,6 +70,19 @@ def draw_tree(draw, max_depth=3, max_files=3, max_subdirs=3, max_cmds=3, odd_nam
     return tree
 
 
+def add_numeric_twins(draw, tree):
+    """'n1.cmake' next to 'n01.cmake': names that differ only in leading zeros (equal under a 'natural' sort key)."""
+    for rel in sorted(tree):
+        base = posixpath.basename(rel)
+        if tree[rel] is not None and base.startswith("n1.") and draw(st.booleans()):
+            twin = posixpath.join(posixpath.dirname(rel), "n01." + base.split(".", 1)[1])
+            stems_here = {refs.stem(posixpath.basename(k)) for k in tree
+                          if tree[k] is not None and posixpath.dirname(k) == posixpath.dirname(rel) and "." in posixpath.basename(k)}
+            if twin not in tree and "n01" not in stems_here:
+                tree[twin] = tree[rel].replace("zq", "zr") if refs.is_cmake(twin) else "twin\n"
+    return tree
+
+
 def fix_for_auto_exclude(tree):
     """Constraints from the quantifier of C13 where auto-exclusion applies: the
     input directory holds a .cmake file; a lower-case .cmake sits next to any
@@ -98,6 +111,7 @@ def draw_site(draw, loc_pool=None, tree_kw=None, auto_exclude=True, max_loc=2):
     s.proj_name = draw(st.sampled_from(PROJ_NAMES))
     s.proj = posixpath.join(s.rel, s.proj_name) if s.rel else s.proj_name
     s.tree = draw_tree(draw, **(tree_kw or {}))
+    add_numeric_twins(draw, s.tree)
     if auto_exclude:
         fix_for_auto_exclude(s.tree)
     return s
@@ -144,7 +158,7 @@ def hits_ancestor(p, site):
 def draw_patterns(draw, site, max_patterns=4, allow_abs=True, allow_root=False, allow_ancestor_hits=False):
     """Patterns drawn from the tree's own names so that they hit.  Unless asked for, no pattern matches a
     component of the generated location above the input (that is finding F5, C15's business)."""
-    entries = sorted(site.tree)
+    entries = sorted(e for e in site.tree if "\\" not in e)      # a backslash is gitignore's escape character
     if not entries:
         return []
     k = draw(st.integers(0, max_patterns))
@@ -184,7 +198,7 @@ def draw_patterns(draw, site, max_patterns=4, allow_abs=True, allow_root=False, 
         if p not in pats and pattern_ok(p) and (allow_ancestor_hits or not hits_ancestor(p, site)):
             pats.append(p)
     if allow_root and draw(st.integers(0, 9)) == 0:
-        pats.append(draw(st.sampled_from([site.proj_name, site.proj_name + "/", "{BASE}/" + site.proj])))
+        pats.append(draw(st.sampled_from([site.proj_name, site.proj_name + "/"] + (["{BASE}/" + site.proj] if allow_abs else []))))
     return pats
 
 
